@@ -19,6 +19,9 @@ import (
 	"go/ast"
 	"go/token"
 	"go/types"
+	"os"
+	"path/filepath"
+	"regexp"
 	"sort"
 	"strings"
 )
@@ -318,6 +321,7 @@ func extractStopSites() {
 	l.def("chainServiceStop", "List Nat", "["+strings.Join(csStopRefs, ", ")+"]", "ChainService.Stop: its close/Wait/Stop calls in source order")
 	l.def("stopClosed", "List Nat", "["+strings.Join(closedRefs, ", ")+"]", "channels closed by some Stop method")
 	facts["stopsites"] = map[string]any{"sites": sites, "stopEvents": events, "chainServiceStop": csStop, "stopClosed": closed}
+	reportUndischarged(sites, closedSet)
 	fmt.Printf("extract: C17 %d blocking sites in %d files; ChainService.Stop order: %s\n", len(sites), len(stopFiles), strings.Join(csStop, " ; "))
 }
 
@@ -351,4 +355,46 @@ func (in *interner) emit(l *leanFile) {
 		fmt.Fprintf(&l.sb, "abbrev %s : Nat := %d\n", leanIdent(n), i)
 	}
 	fmt.Fprintf(&l.sb, "\n/-- id -> source name (display only) -/\ndef names : List String := %s\n\n", lstrs(in.names))
+}
+
+// reportUndischarged is a convenience for the evidence log (the Lean theorem is the authority): it prints the sites
+// that have no default, no alternative on a Stop-closed channel, and no (function, channel) entry in the hand-written
+// tables of lean/Neutrino/Model/Shutdown*.lean, when those files can be found next to the extractor binary.
+func reportUndischarged(sites []stopSite, closed map[string]bool) {
+	exe, err := os.Executable()
+	if err != nil {
+		return
+	}
+	root := filepath.Dir(filepath.Dir(exe))
+	if v := os.Getenv("VERIF_DIR"); v != "" {
+		root = v
+	}
+	var text string
+	for _, f := range []string{"ShutdownDischarge.lean", "Shutdown.lean"} {
+		b, err := os.ReadFile(filepath.Join(root, "lean", "Neutrino", "Model", f))
+		if err != nil {
+			return
+		}
+		text += string(b)
+	}
+	re := regexp.MustCompile("N\\.«([^»]*)», N\\.«([^»]*)»")
+	listed := map[string]bool{}
+	for _, m := range re.FindAllStringSubmatch(text, -1) {
+		listed[m[1]+"\x00"+m[2]] = true
+	}
+	for _, s := range sites {
+		ok := s.HasDefault
+		for _, a := range s.Alts {
+			if (!a.Send && closed[a.Chan]) || listed[s.Fn+"\x00"+a.Chan] {
+				ok = true
+			}
+		}
+		if !ok {
+			ch := ""
+			if len(s.Alts) > 0 {
+				ch = s.Alts[0].Chan
+			}
+			fmt.Printf("extract: C17 site with no default, no Stop-closed quit alternative and no table entry: %s:%s (%s at %s:%d)\n", s.Fn, ch, s.Kind, s.File, s.Line)
+		}
+	}
 }
